@@ -10,7 +10,9 @@ from rnaverif.runner import D, HarnessError, ShardResult, check_case, run_hypoth
 PROP_ID = "C07"
 LEVEL = "exploration"
 RULE = (
-    "Domains: (a) every matching on <=N positions exhaustively (N=9 quick, 11 thorough); (b) Hypothesis blow-ups "
+    "Domains: (a) every matching on <=N positions exhaustively (N=9 quick, 11 thorough); (a') every chord diagram on k chords, once with "
+    "an unpaired nucleotide between endpoints and once dense (zero-length hairpins, adjacent pairs), k=5 quick, 5-6 "
+    "thorough; (b) Hypothesis blow-ups "
     "up to ~150 nt with multiloops, bulges, length-1 stems and pseudoknotted loops. Oracle (reference "
     "decomposition from the statement): stems == maximal stacked runs with mirrored strands (own stem finder); "
     "hairpins == exactly the pairs enclosing only unpaired nucleotides; each loop has >=2 strands, consecutive "
@@ -246,6 +248,10 @@ def plan(tier, seed):
         N, K, hyp = 11, 64, [(2500, 14)] * 16
     for k in range(K):
         specs.append({"kind": "exhaustive", "N": N, "slice": k, "of": K})
+    for k, shards in ([(5, 2)] if tier == "quick" else [(5, 1), (6, 8)]):
+        for sl in range(shards):
+            for spaced in (True, False):
+                specs.append({"kind": "chords", "k": k, "slice": sl, "of": shards, "spaced": spaced})
     for idx, (n, m) in enumerate(hyp):
         specs.append({"kind": "blowup", "examples": n, "max_abstract": m, "seed": seed * 1000 + idx})
     specs.append({"kind": "cli", "examples": 250 if tier == "quick" else 3000, "seed": seed * 1000 + 900})
@@ -268,6 +274,16 @@ def run_shard(spec) -> ShardResult:
                 idx += 1
         res.exhaustive = True
         res.extra["exhaustive_structures"] = res.evaluations
+    elif spec["kind"] == "chords":
+        # every chord diagram on k chords, with an unpaired nucleotide between endpoints (k stems of one pair, every
+        # loop topology) or without any (zero-length hairpins, adjacent and stacked pairs)
+        for idx, chords in enumerate(ssref.perfect_matchings(spec["k"])):
+            if idx % spec["of"] == spec["slice"]:
+                case = ssref.chord_structure(chords, spec["spaced"])
+                nt, labs = classify(case)
+                res.note_case(tj(case), nt, labs + [f"chord-diagram-k={spec['k']}-{'spaced' if spec['spaced'] else 'dense'}"], sample_cap=1)
+                check_case(PROP_ID, oracle, case, res, to_json=tj)
+        res.exhaustive = True
     elif spec["kind"] == "blowup":
         run_hypothesis(PROP_ID, ssref.st_structures(max_abstract=spec["max_abstract"]), oracle, seed=spec["seed"],
                        max_examples=spec["examples"], result=res, to_json=tj, classify=classify)
